@@ -15,7 +15,7 @@ use verif_harness::*;
 const TIMERS: usize = 3;
 const TICKS: [i128; 3] = [500_000_000, -1_000_000_000, 2_000_000_000];
 
-#[derive(Clone, Debug, PartialEq, Eq, Hash)]
+#[derive(Clone, Debug, PartialEq, Eq, Hash, serde::Serialize, serde::Deserialize)]
 enum Op {
     Start(usize),
     ObserveDuration(usize),
@@ -242,9 +242,8 @@ fn main() {
     let thorough = args.tier == Tier::Thorough;
     if let Some(p) = &args.replay {
         let doc = read_replay(p);
-        for l in doc["transcript"].as_array().cloned().unwrap_or_default() {
-            println!("  recorded: {}", l.as_str().unwrap_or(""));
-        }
+        let local = doc["model"].as_str().unwrap_or("").contains("local");
+        std::process::exit(replay_cli("C18", p, &doc, &TimerSut { local, merge: false }));
     }
     let d = if thorough { 6 } else { 5 };
     let md = if thorough { 9 } else { 7 };
